@@ -319,6 +319,50 @@ def seq_conformance(wd, seed):
     return drift
 
 
+def drive(scenarios, wd, tag="conc"):
+    """Run gate-scheduled scenarios; a deadlock makes the child exit(3) - continue with the rest in a new child.
+    Returns (events by scenario, [(scenario id, events)] deadlocked, [scenario ids] stuck without blocked-in-Lock evidence)."""
+    all_events = {}
+    todo = list(scenarios)
+    deadlocks, stuck = [], []
+    rounds = 0
+    while todo:
+        rounds += 1
+        events, rc, err = run_driver(todo, wd, tag="%s%d" % (tag, rounds), timeout=1500)
+        by = split_scenarios(events)
+        all_events.update(by)
+        if rc == 0:
+            break
+        if rc == 3:
+            # the scenario that was running when the child gave up is the last one begun
+            last = [e["sc"] for e in events if e["ev"] == "Begin"][-1]
+            evs = by[last]
+            sch = [e for e in evs if e["ev"] in ("Sched", "Watchdog")]
+            if sch and (sch[-1].get("deadlock") or sch[-1].get("goroutines_in_mutex_lock", 0) >= 2):
+                deadlocks.append((last, evs))
+            else:
+                stuck.append(last)
+            idx = [s["id"] for s in todo].index(last)
+            todo = todo[idx + 1:]
+            if len(deadlocks) >= 3:
+                break  # enough evidence; every further deadlock costs a watchdog period
+            continue
+        raise Inconclusive("driver exited %s: %s" % (rc, err[-400:]))
+    return all_events, deadlocks, stuck
+
+
+def race_scenarios(prop, seed, wd, n, conc):
+    """Schedules for the SEQUENTIAL properties' concurrent clause (C01 / C02: 'over its whole lifetime', any arrival pattern):
+    the interleavings that designs without effective per-key locking admit (SignerSim with LockMode none / first) plus
+    shipped-design behaviours, imposed on the real code through the gates."""
+    behs = gen_behaviours(n, seed + 11, wd, broken=dict(LockMode="none")) + gen_behaviours(n // 2, seed + 12, wd, broken=dict(LockMode="first")) + \
+        gen_behaviours(n // 2, seed + 13, wd)
+    scs = []
+    for i, b in enumerate(behs):
+        scs.append(scenario_for(b, "%s-race-%s%d" % (prop, "atk" if b["attack"] else "sim", i), conc))
+    return scs
+
+
 def run(prop, tier, seed):
     t0 = time.time()
     wd = workdir(prop)
@@ -350,33 +394,7 @@ def run(prop, tier, seed):
                 sid = "%s-%s-free%d" % (prop, cname, j)
                 scenarios.append(free_scenario(behs[j:j + 2], sid, conc))
                 meta[sid] = None
-        # run; a deadlock makes the child exit(3) - continue with the rest in a new child
-        all_events = {}
-        todo = list(scenarios)
-        deadlocks, stuck = [], []
-        rounds = 0
-        while todo:
-            rounds += 1
-            events, rc, err = run_driver(todo, wd, tag="conc%d" % rounds, timeout=1500)
-            by = split_scenarios(events)
-            all_events.update(by)
-            if rc == 0:
-                break
-            if rc == 3:
-                # the scenario that was running when the child gave up is the last one begun
-                last = [e["sc"] for e in events if e["ev"] == "Begin"][-1]
-                evs = by[last]
-                sch = [e for e in evs if e["ev"] in ("Sched", "Watchdog")]
-                if sch and (sch[-1].get("deadlock") or sch[-1].get("goroutines_in_mutex_lock", 0) >= 2):
-                    deadlocks.append((last, evs))
-                else:
-                    stuck.append(last)
-                idx = [s["id"] for s in todo].index(last)
-                todo = todo[idx + 1:]
-                if len(deadlocks) >= 3:
-                    break  # enough evidence; every further deadlock costs a watchdog period
-                continue
-            raise Inconclusive("driver exited %s: %s" % (rc, err[-400:]))
+        all_events, deadlocks, stuck = drive(scenarios, wd)
         if stuck:
             raise Inconclusive("watchdog fired without blocked-in-Lock evidence in %s" % stuck[:3])
         ndev = sum(1 for sid, evs in all_events.items() for e in evs if e["ev"] == "Sched" and e["deviations"])
